@@ -841,8 +841,39 @@ fn run_shard<E: Engine>(
                         return Err(TestCaseError::fail("hang"));
                     }
                 }
-                *incon.borrow_mut() = Some(w);
-                stop.store(true, Ordering::Relaxed);
+                // keep the case for inspection, then try it once more: a verdict that needs a
+                // timeout can be missed once on a saturated machine
+                let dir = verif_root().join("replays");
+                let _ = std::fs::create_dir_all(&dir);
+                let path = dir.join(format!("{}-inconclusive-{:016x}.json", ctx.prop, hash_json(&case)));
+                let rf = ReplayFile {
+                    engine: E::NAME.to_string(),
+                    property: ctx.prop.clone(),
+                    seed: ctx.seed,
+                    stage: format!("{}#{}", stage_name, shard),
+                    case: serde_json::to_value(&case).unwrap_or(Value::Null),
+                    violation: None,
+                };
+                let _ = std::fs::write(&path, serde_json::to_string_pretty(&rf).unwrap_or_default());
+                let again = E::run(ctx, &case);
+                match (again.inconclusive, again.violation) {
+                    (None, None) => {
+                        // not reproducible: go on
+                        let mut st = stats.borrow_mut();
+                        *st.labels.entry("inconclusive-once-then-fine".into()).or_default() += 1;
+                        let _ = std::fs::remove_file(&path);
+                    }
+                    (None, Some(v)) => {
+                        *first.borrow_mut() = Some((case.clone(), v.clone()));
+                        failed.set(true);
+                        stop.store(true, Ordering::Relaxed);
+                        return Err(TestCaseError::fail(v.oracle));
+                    }
+                    (Some(w2), _) => {
+                        *incon.borrow_mut() = Some(format!("{} (again on a second execution: {}; case kept in {})", w, w2, path.display()));
+                        stop.store(true, Ordering::Relaxed);
+                    }
+                }
             }
             return Ok(());
         }
